@@ -518,6 +518,10 @@ class MailboxSet(MailboxSetInterface[MailboxData]):
             self._layout.add_folder(name, self.delimiter)
         except FileExistsError as exc:
             raise ValueError(name) from exc
+        except OSError as exc:
+            if exc.errno == errno.ENAMETOOLONG:
+                raise NotSupportedError() from exc
+            raise exc
         path = self._layout.get_path(name, self.delimiter)
         async with UidList.with_init(path) as uidl:
             global_uid = uidl.global_uid
@@ -531,6 +535,8 @@ class MailboxSet(MailboxSetInterface[MailboxData]):
         except OSError as exc:
             if exc.errno == errno.ENOTEMPTY:
                 raise MailboxHasChildren(name) from exc
+            elif exc.errno == errno.ENAMETOOLONG:
+                raise KeyError(name) from exc
             raise exc
 
     async def rename_mailbox(self, before: str, after: str) -> None:
@@ -550,4 +556,9 @@ class MailboxSet(MailboxSetInterface[MailboxData]):
                 pass
             else:
                 raise ValueError(after)
-            self._layout.rename_folder(before, after, self.delimiter)
+            try:
+                self._layout.rename_folder(before, after, self.delimiter)
+            except OSError as exc:
+                if exc.errno == errno.ENAMETOOLONG:
+                    raise NotSupportedError() from exc
+                raise exc
